@@ -113,13 +113,22 @@ fn process_create_event(
     paths: &[PathBuf],
 ) -> Option<SourceFileEvent> {
     match create_kind {
-        // Note: maybe we should add CreateKind::Folder as well. Need a confirmation
-        // that move folder from outside a watch directory could fire a create event.
-        // Now it's always Modify(Name(Any)) i.e. Rename
         CreateKind::File => {
             if paths.len() != 1 {
                 panic!(
                     "File create event should contain exactly one file. \
+                    This is indicative of a bug in Isograph."
+                )
+            }
+            categorize_changed_file_and_filter_changes_in_artifact_directory(config, &paths[0])
+                .map(|file_kind| (SourceEventKind::CreateOrModify(paths[0].clone()), file_kind))
+        }
+        // A folder can be created together with its content (e.g. copied or checked out), and
+        // the events for that content are not reliably delivered.
+        CreateKind::Folder => {
+            if paths.len() != 1 {
+                panic!(
+                    "Folder create event should contain exactly one folder. \
                     This is indicative of a bug in Isograph."
                 )
             }
